@@ -1,6 +1,134 @@
-"""Property -> rule functions."""
-import e3_io
+"""Property -> rule functions.  Every rule is a static rule on exported facts; see DESIGN.md section 4 for the clause each decides."""
 import e1_layout
+import e2_guards
+import e3_io
+import e5_formulas
+import e6_generated
+import e7_containers
+import e8_portable
+import e9_witness
+
+VALIDATE_ROOTS = lambda n: n.startswith("__root_validate__")
+EMPLACE_ROOTS = lambda n: n.startswith(("__root_emplace__", "__root_default__"))
+ASSIGN_ROOTS = lambda n: n.startswith(("__root_assign__", "__root_emplace__", "__root_flexpush", "__root_flexapi__"))
+RECV_ROOTS = lambda n: n.startswith(("__root_recv__", "__root_arecv__", "__root_iobuf"))
+FLEX_ROOTS = lambda n: n.startswith(("__root_flexapi__", "__root_flexpush", "__root_size__K_FlexVec"))
+
+
+def c01(F, R):
+    R.explain("C01 (validation is total): E2 risky-site inventory over the monomorphic call graph of validate/from_bytes/from_mut_bytes of every corpus type: "
+              "every assert, diverging call, panicking boundary call and unsafe call reachable is discharged by a checked guard, gate, constant or stated lemma; "
+              "loops are finite-iterator or progress loops; the call graph is acyclic. Plus the gate shapes (G1), the per-variant size gate (G2), "
+              "tag accept-sets (V2) and the bounded FlexVec chain walk.")
+    e2_guards.guard_rules(F, R, VALIDATE_ROOTS, "validate", 300)
+    e5_formulas.gate_rules(F, R)
+    e6_generated.generated_rules(F, R, {"validate"})
+    e6_generated.tag_accept_rules(F, R)
+    e7_containers.vec_string_validators(F, R)
+    e7_containers.flex_reader(F, R)
+    e7_containers.flex_validator(F, R)
+    e7_containers.array_validator(F, R)
+    e9_witness.witness_rules(F, R)
+
+
+def c02(F, R):
+    R.explain("C02 (from_bytes accepts well-formed encodings, consistent view): V1 validate reaches every constrained component (mono call graph vs shape manifest); "
+              "V2 accept-set of every field-less enum validator = declared discriminants; V3/V4 string/vec predicates exact; V5 validated byte range = view byte range; "
+              "F6 generated validators walk the declared field lists; checked wrapper construction. 'iff' and content equality are NOT decided.")
+    e2_guards.reach_components(F, R)
+    e6_generated.tag_accept_rules(F, R)
+    e6_generated.generated_rules(F, R, {"validate", "ptr"})
+    e7_containers.vec_string_validators(F, R)
+    e7_containers.flex_validator(F, R)
+    e7_containers.flex_reader(F, R)
+    e7_containers.array_validator(F, R)
+    e5_formulas.gate_rules(F, R)
+    e5_formulas.trait_method_rules(F, R)
+    e5_formulas.base_formula_rules(F, R)
+    e9_witness.witness_rules(F, R)
+
+
+def c03(F, R):
+    R.explain("C03 (emplace then read back): F6 the generated Init, accessors, validator and size() walk the same declared field list per variant with the shared "
+              "position iterator; tag <-> variant agreement; payload from DATA_OFFSET over the range the view covers; sized values written whole at the slot start; "
+              "container emplacers reset to empty first. Read-back equality of values is NOT decided.")
+    e6_generated.generated_rules(F, R, {"init", "access", "validate", "size"})
+    e5_formulas.base_formula_rules(F, R)
+    e5_formulas.trait_method_rules(F, R)
+    e7_containers.filling_emplacers(F, R)
+    e7_containers.empty_emplacers(F, R)
+    e7_containers.flex_writers(F, R)
+    e1_layout.layout_rules(F, R)
+
+
+def c04(F, R):
+    R.explain("C04 (computed layout = compiler layout = C layout; a view never exceeds its slice): every layout constant the library computes compared with rustc's "
+              "layout_of and with the C layout rule evaluated independently from the declared field lists, for every corpus type; the four position walkers compute one "
+              "recurrence (F3); view-extent formulas of every ptr_from_bytes (F1) incl. the struct floor. Exact per type, grammar-bounded over programs.")
+    e1_layout.layout_rules(F, R)
+    e5_formulas.base_formula_rules(F, R)
+    e6_generated.generated_rules(F, R, {"ptr"})
+
+
+def c05(F, R):
+    R.explain("C05 (size() is the exact extent): F2 size formulas of FlatVec/FlatString/generated structs and enums agree with the view formulas and round to ALIGN; "
+              "F4 FlexVec extents (push, FromIterator, size) use one formula; size folds walk the declared lists. Value-level equality on every reachable state is NOT decided.")
+    e5_formulas.size_formula_rules(F, R)
+    e5_formulas.base_formula_rules(F, R)
+    e6_generated.generated_rules(F, R, {"size", "ptr"})
+    e7_containers.flex_size(F, R)
+    e7_containers.flex_writers(F, R)
+    e1_layout.layout_rules(F, R, containers_only=True)
+
+
+def c06(F, R):
+    R.explain("C06 (framing contract): ERRKIND at every error construction on validation paths: shortfalls are InsufficientSize, content errors are not, "
+              "content checks are dominated by the size gates (a prefix is never a content error); receive loops keyed on exactly InsufficientSize. "
+              "Same-content-for-prefix/extension is NOT decided.")
+    e5_formulas.gate_rules(F, R)
+    e6_generated.generated_rules(F, R, {"validate"})
+    e7_containers.vec_string_validators(F, R)
+    e7_containers.flex_reader(F, R)
+    e7_containers.flex_validator(F, R)
+    e3_io.recv_rules(F, R, "blocking")
+    e3_io.recv_rules(F, R, "async")
+    errkind_inventory(F, R)
+
+
+def errkind_inventory(F, R):
+    """Every ErrorKind construction in the library is one of the classified sites (no new kind of error appears unclassified)."""
+    from mir import Body
+    sites = {}
+    for b in F.bodies:
+        if b["krate"] not in ("flatty_base", "flatty_containers", "flatty_portable"):
+            continue
+        if b.get("derived"):
+            continue
+        body = Body(b)
+        for bb, i, s in body.assigns():
+            r = s["r"]
+            if "agg" in r and isinstance(r["agg"], dict) and r["agg"].get("adt") == "flatty_base::error::ErrorKind":
+                sites.setdefault(b["def"], []).append(r["agg"]["vname"])
+    allowed = {
+        "flatty_base::utils::mem::check_align_and_min_size": ["BadAlign", "InsufficientSize"],
+        "flatty_base::utils::iter::TypeIter::check_align_and_min_size": ["BadAlign", "InsufficientSize"],
+        "<flatty_containers::vec::FlatVec<T, L> as flatty_base::traits::FlatValidate>::validate_unchecked": ["InsufficientSize"],
+        "<flatty_containers::string::FlatString<L> as flatty_base::traits::FlatValidate>::validate_unchecked": ["InsufficientSize", "InvalidData"],
+        "<flatty_containers::flex::DataIter<'a, T, L, D> as core::iter::traits::iterator::Iterator>::next": ["InsufficientSize", "InsufficientSize", "InvalidData"],
+        "<flatty_containers::flex::FromIterator<T, E, I> as flatty_base::emplacer::Emplacer<flatty_containers::flex::FlexVec<T, L>>>::emplace_unchecked": ["InsufficientSize", "InsufficientSize"],
+        "flatty_containers::flex::FlexVec::<T, L>::push": ["InsufficientSize", "InsufficientSize"],
+        "<flatty_containers::vec::FromArray<T, N> as flatty_base::emplacer::Emplacer<flatty_containers::vec::FlatVec<T, L>>>::emplace_unchecked": ["InsufficientSize"],
+        "<flatty_containers::vec::FromIterator<T, I> as flatty_base::emplacer::Emplacer<flatty_containers::vec::FlatVec<T, L>>>::emplace_unchecked": ["InsufficientSize"],
+        "<flatty_containers::string::FromStr<S> as flatty_base::emplacer::Emplacer<flatty_containers::string::FlatString<L>>>::emplace_unchecked": ["InsufficientSize"],
+        "<flatty_containers::string::FromStr<S> as flatty_base::emplacer::Emplacer<flatty_containers::string::FlatString<L>>>::emplace_unchecked::{closure#0}": ["InsufficientSize"],
+        "<flatty_portable::bool_::Bool as flatty_base::traits::FlatValidate>::validate_unchecked": ["InvalidData"],
+    }
+    for d, kinds in sorted(sites.items()):
+        want = allowed.get(d)
+        R.ob("K2.errkind-inventory", d, "kinds", want is not None and sorted(want) == sorted(kinds),
+             "%s constructs error kinds %s%s" % (d, sorted(kinds), "" if want is not None and sorted(want) == sorted(kinds) else
+                                                 " -- not the classified set %s (new / changed error site: classify length vs alignment vs content)" % want))
+    R.floor("K2", "error-constructing functions in the library", len(sites), 10)
 
 
 def c07(F, R):
@@ -12,6 +140,7 @@ def c07(F, R):
     e3_io.write_loop_rules(F, R, "blocking")
     e3_io.read_rules(F, R, "blocking")
     e3_io.window_rules(F, R)
+    e9_witness.witness_rules(F, R)
 
 
 def c08(F, R):
@@ -22,6 +151,7 @@ def c08(F, R):
     e3_io.read_rules(F, R, "async")
     e3_io.guard_rules(F, R)
     e3_io.window_rules(F, R)
+    e9_witness.witness_rules(F, R)
 
 
 def c09(F, R):
@@ -31,35 +161,152 @@ def c09(F, R):
         e3_io.write_loop_rules(F, R, v)
         e3_io.read_rules(F, R, v)
         e3_io.recv_rules(F, R, v)
+    e3_io.window_rules(F, R)
+    e9_witness.witness_rules(F, R)
 
 
 def c10(F, R):
-    R.explain("C10: receiver robustness: guard only after validate Ok; who-may-construct RecvGuard; OOM before empty read; loop keyed on InsufficientSize.")
+    R.explain("C10: receiver robustness: guard only after validate Ok; who-may-construct RecvGuard; OOM before empty read; loop keyed on InsufficientSize; "
+              "E2 risky-site inventory from the recv / guard roots (validation reached from the IO entry points).")
     for v in ("blocking", "async"):
         e3_io.recv_rules(F, R, v)
         e3_io.read_rules(F, R, v)
     e3_io.guard_ctor_rules(F, R)
     e3_io.guard_rules(F, R)
     e3_io.window_rules(F, R)
+    e2_guards.guard_rules(F, R, RECV_ROOTS, "recv", 100)
+    e7_containers.flex_reader(F, R)
+    e9_witness.witness_rules(F, R)
 
 
-def c04(F, R):
-    R.explain("C04: every layout constant the library computes (ALIGN, SIZE, MIN_SIZE, DATA_OFFSET, DATA_MIN_SIZES, LAST_FIELD_OFFSET, "
-              "container DATA_OFFSET/OFFSET_SIZE) compared with rustc's layout_of and with the C layout rule evaluated independently "
-              "from the declared field lists, for every corpus type; exact per type, grammar-bounded over programs.")
-    e1_layout.layout_rules(F, R)
+def c11(F, R):
+    R.explain("C11 (FlatVec/FlatString as capacity-bounded Vec/String): the operations are stavec's (outside /repo); decided are flatty's mapping clauses: header layout "
+              "for the (T, L) matrix, capacity = metadata computed by the in-bounds formula, validity predicate exact, single writer of the length word, Deref returns "
+              "the inner vector only. Model equivalence under histories is NOT decided.")
+    e1_layout.layout_rules(F, R, containers_only=True)
+    e5_formulas.base_formula_rules(F, R)
+    e5_formulas.size_formula_rules(F, R)
+    e5_formulas.trait_method_rules(F, R)
+    e7_containers.vec_string_validators(F, R)
+    e7_containers.empty_emplacers(F, R)
+    e7_containers.filling_emplacers(F, R)
+    e2_guards.guard_rules(F, R, lambda n: n.startswith("__root_validate__K_Flat") or n.startswith("__root_size__K_Flat"), "vecstring", 20)
+
+
+def c12(F, R):
+    R.explain("C12 (FlexVec as a sequence): chain protocol reader = writers (0 ends, L::MAX marks the open last item, extents strictly below MAX and aligned), "
+              "truncate/pop/clear cursor index, push/FromIterator slot values and destinations, size(). History equivalence is NOT decided.")
+    e7_containers.flex_reader(F, R)
+    e7_containers.flex_writers(F, R)
+    e7_containers.flex_size(F, R)
+    e7_containers.flex_validator(F, R)
+    e7_containers.empty_emplacers(F, R)
+    e2_guards.guard_rules(F, R, FLEX_ROOTS, "flexapi", 50)
+    e9_witness.witness_rules(F, R)
+
+
+def c13(F, R):
+    R.explain("C13 (rejected operation leaves the container unchanged): no offset slot is written on any path of FlexVec::push that can still fail; "
+              "refusals of FlatVec/FlatString are stavec's (trusted), flatty's emplacers map them to InsufficientSize. 'As if never happened' for later histories is NOT decided.")
+    e7_containers.flex_writers(F, R)
+    e7_containers.filling_emplacers(F, R)
+
+
+def c14(F, R):
+    R.explain("C14 (in-place mutation stays inside the value): E2 unsafe-site inventory from emplace/assign/push roots: every raw store is gated; "
+              "view-extent formulas (F1) incl. struct floor; initialisers hand emplacers exactly the range the view covers; unchecked entry points need unsafe (witnesses).")
+    e2_guards.guard_rules(F, R, ASSIGN_ROOTS, "mutate", 200, kinds={"unsafe-call", "raw-deref"})
+    e5_formulas.base_formula_rules(F, R)
+    e5_formulas.trait_method_rules(F, R)
+    e6_generated.generated_rules(F, R, {"init", "ptr"})
+    e7_containers.flex_writers(F, R)
+    e7_containers.empty_emplacers(F, R)
+    e9_witness.witness_rules(F, R)
+
+
+def c15(F, R):
+    R.explain("C15 (emplacement into any buffer: right error or correct success): E2 inventory from new_in_place/default_in_place roots, gate shapes and dominance, "
+              "per-variant list gate in generated Init, error kinds at the does-not-fit sites.")
+    e2_guards.guard_rules(F, R, EMPLACE_ROOTS, "emplace", 300)
+    e5_formulas.gate_rules(F, R)
+    e5_formulas.base_formula_rules(F, R)
+    e6_generated.generated_rules(F, R, {"init"})
+    e7_containers.filling_emplacers(F, R)
+    e7_containers.flex_writers(F, R)
+    errkind_inventory(F, R)
+    e9_witness.witness_rules(F, R)
+
+
+def c16(F, R):
+    R.explain("C16 (portable scalars): complete structural decision: layout (align 1, size N), endianness of from_native/to_native per BE, alias tables, "
+              "delegation of every trait method of all 16 instantiations to the matching native operation, derives on the byte array, Bool accept-set.")
+    e8_portable.scalar_rules(F, R)
+    e6_generated.tag_accept_rules(F, R)
 
 
 def c17(F, R):
-    R.explain("C17: every corpus type implementing Portable has ALIGN 1 and no padding; Portable impls require Portable parameters.")
+    R.explain("C17 (portable composites): every corpus type implementing Portable has ALIGN 1 and no padding; Portable impls require Portable parameters (incl. the tag); "
+              "compile-fail witnesses for the negative cases.")
     e1_layout.portable_rules(F, R)
+    e9_witness.witness_rules(F, R)
+
+
+def c18(F, R):
+    R.explain("C18 (failed assign_in_place leaves a valid value): R1 tag stored only after the per-variant size gate; R2 check-before-reset in FromArray/FromStr; "
+              "R3 FlexVec FromIterator resets first and marks/seals back to back; assign_in_place returns the error with no further store. "
+              "Composite initialisers that fail in a later field after earlier fields were written are a recorded design limit (known finding).")
+    e6_generated.generated_rules(F, R, {"init"})
+    e7_containers.filling_emplacers(F, R)
+    e7_containers.flex_writers(F, R)
+    e7_containers.empty_emplacers(F, R)
+    e5_formulas.trait_method_rules(F, R)
+    composite_limit(F, R)
+
+
+def composite_limit(F, R):
+    """R4: generated Init emplacers write earlier fields before a later (fallible, unsized) field emplacer can fail."""
+    from e6_generated import corpus_body
+    man = F.manifest["types"]
+    n = 0
+    for nm, m in sorted(man.items()):
+        d = m.get("def")
+        if not d or d["sized"]:
+            continue
+        lists = [d["fields"]] if d["kind"] == "struct" else [v["fields"] for v in d["variants"]]
+        risky = any(len(fs) >= 1 and not fs[-1]["sized"] and (len(fs) > 1 or d["kind"] == "enum") for fs in lists)
+        if risky:
+            n += 1
+    # one generic finding (same site for every generated type): keyed on the macro template, not on corpus types
+    R.ob("R4.composite-one-pass", "<generated>::Init::emplace_unchecked", "later-field-failure", n == 0,
+         "generated initialisers are one-pass: %d corpus types have a fallible trailing field emplacer that runs after the tag / earlier fields were already overwritten; "
+         "if it fails (content does not fit) the target keeps the new tag and leading fields over the old tail" % n,
+         where="macros/src/items/init.rs")
+
+
+def c19(F, R):
+    R.explain("C19 (content errors are reported at the byte that is wrong): ERR-OFFSET: at every nesting level (struct fields, enum payload, vector elements, array "
+              "elements, FlexVec items and slots, string) the nested error passes Error::offset with the normal form of that level's position.")
+    e5_formulas.trait_method_rules(F, R)
+    e6_generated.generated_rules(F, R, {"validate"})
+    e7_containers.vec_string_validators(F, R)
+    e7_containers.array_validator(F, R)
+    e7_containers.flex_validator(F, R)
+    e7_containers.flex_reader(F, R)
+    e5_formulas.base_formula_rules(F, R)
+    e1_layout.layout_rules(F, R)
+
+
+def c20(F, R):
+    R.explain("C20 (default_in_place): blanket FlatDefault returns Default::default(); Empty emplacers store zero and read nothing; generated default emplacers are "
+              "per-field defaults in order / the variant the source marks #[default]; sized types derive Default. Deep value equality is NOT decided.")
+    e5_formulas.trait_method_rules(F, R)
+    e5_formulas.base_formula_rules(F, R)
+    e6_generated.generated_rules(F, R, {"default", "init"})
+    e7_containers.empty_emplacers(F, R)
+    e2_guards.guard_rules(F, R, lambda n: n.startswith("__root_default__"), "default", 100)
 
 
 PROPS = {
-    "C04": [c04],
-    "C17": [c17],
-    "C07": [c07],
-    "C08": [c08],
-    "C09": [c09],
-    "C10": [c10],
+    "C01": [c01], "C02": [c02], "C03": [c03], "C04": [c04], "C05": [c05], "C06": [c06], "C07": [c07], "C08": [c08], "C09": [c09], "C10": [c10],
+    "C11": [c11], "C12": [c12], "C13": [c13], "C14": [c14], "C15": [c15], "C16": [c16], "C17": [c17], "C18": [c18], "C19": [c19], "C20": [c20],
 }
